@@ -79,10 +79,12 @@ func genPayloadRules(r *vh.Rand, w *vh.LineWriter, next int, tier string) int {
 		{"runs", r.Intn(256), 8192}, {"runs", r.Intn(256), 70000},
 	}
 	if tier == "thorough" {
-		for i := 0; i < 300; i++ {
-			cases = append(cases, rc{[]string{"rep", "recpad", "runs"}[r.Intn(3)], r.Intn(256), 1 + r.Intn(1<<20)})
+		// the extracted model walks these lists element by element: keep them
+		// below 256KB (a 1MB payload costs the model about a second)
+		for i := 0; i < 80; i++ {
+			cases = append(cases, rc{[]string{"rep", "recpad", "runs"}[r.Intn(3)], r.Intn(256), 1 + r.Intn(1<<18)})
 		}
-		cases = append(cases, rc{"rep", 0, 16 << 20})
+		cases = append(cases, rc{"rep", 0, 1 << 20})
 	}
 	for _, c := range cases {
 		cmd := payloadByRule(c.rule, c.a, c.b)
@@ -108,7 +110,7 @@ func genPayloadRules(r *vh.Rand, w *vh.LineWriter, next int, tier string) int {
 func genPayloadBatches(r *vh.Rand, w *vh.LineWriter, next int, tier string) int {
 	n := 60
 	if tier == "thorough" {
-		n = 5000
+		n = 2000
 	}
 	for i := 0; i < n; i++ {
 		var ops []string
@@ -135,7 +137,7 @@ func genPayload(r *vh.Rand, w *vh.LineWriter, next int, tier string) int {
 	next = genPayloadBatches(r, w, next, tier)
 	n := 300
 	if tier == "thorough" {
-		n = 50000
+		n = 15000
 	}
 	for i := 0; i < n; i++ {
 		var cmd []byte
